@@ -732,21 +732,6 @@ Proof.
   unfold bind at 1. rewrite (read_var_ok l (v + i) s g sg) by assumption. rewrite Hc. reflexivity.
 Qed.
 
-Theorem readidx_unset_wrong_cell m l ty v i s g sg :
-  (ty =? 7) = false -> scope_ok l s g -> 0 <= g ->
-  nth_error (heap s) (Z.to_nat g) = Some sg -> 0 <= v + i ->
-  nth_error (s_cells sg) (Z.to_nat (v + i)) = Some None ->
-  0 <= i < Z.of_nat (length (s_cells sg)) ->
-  exec m (IReadidx l ty v i) s
-  = R tt (with_hs s (upd_heap (heap s) (Z.to_nat g) (Z.to_nat i) (Some (default_cell ty)))
-                  (default_cell ty :: stack s)).
-Proof.
-  intros Hty Hsc Hg Hs Hvi Hc Hi. cbv beta iota delta [exec]. rewrite Hty. unfold read_generic. rewrite Hty.
-  unfold bind at 1. rewrite (read_var_ok l (v + i) s g sg) by assumption. rewrite Hc.
-  unfold bind at 1. rewrite (write_var_ok l i _ s g sg) by assumption.
-  destruct s; reflexivity.
-Qed.
-
 (* the repaired instruction: write_var(scope, var + idx, value) *)
 Definition exec_readidx_fixed (l : bool) (ty v i : Z) : M unit :=
   if ty =? 7 then crashM CrAssert else read_generic l ty (v + i) (v + i).
@@ -767,6 +752,10 @@ Proof.
   - eapply read_set_pure; eauto.
   - eapply read_unset_default; eauto.
 Qed.
+
+(* after the fix commit for D15 the instruction is the repaired one *)
+Lemma readidx_is_fixed m l ty v i s : exec m (IReadidx l ty v i) s = exec_readidx_fixed l ty v i s.
+Proof. reflexivity. Qed.
 
 (* deref: through a reference (parameters, array elements) *)
 Theorem deref_set_pure m ty g i rest s sg c :
@@ -1230,26 +1219,4 @@ Proof.
   - vm_compute. discriminate.
 Qed.
 
-(* D15: frame [x% = 7; y$ = "hi"; v.a unset; v.b unset] and `readidxl% 2, 1`
-   (PRINT v.b): cell var + idx = 3 is read, the default is written to cell
-   idx = 1, which is the live variable y$ *)
-Definition d15_state : st :=
-  set_cur (set_heap (init_state (mkModule [] [] [] 0 None) (mkScript [] [] [] []))
-             [mkSeg [] SGlobals;
-              mkSeg [Some (CI 7); Some (CStr [104; 105]); None; None] (SFrame None 0 0 4)])
-          (Some 1).
 
-Lemma readidx_changes_other_cell_refuted :
-  exists m s s' g i j,
-    exec m (IReadidx true 1 2 1) s = R tt s' /\
-    (g, j) <> (g, i) /\
-    i = 3%nat /\
-    cellat (heap s) g j = Some (Some (CStr [104; 105])) /\
-    cellat (heap s') g j = Some (Some (CI 0)) /\
-    cellat (heap s') g i = Some None.
-Proof.
-  exists (mkModule [] [] [] 0 None), d15_state.
-  eexists. exists 1%nat, 3%nat, 1%nat.
-  split; [vm_compute; reflexivity|].
-  repeat split; try discriminate; vm_compute; reflexivity.
-Qed.
